@@ -221,6 +221,20 @@ CHECKS["C03"] = dict(
     ref="6/C03",
 )
 
+CHECKS["C19"] = dict(
+    text="padding_aligns, write_layout, chunked_read_covers_exactly, read_inverts_write_partial (itemsize >= 1), short_data_is_an_error, "
+    "mmap_offset_is_data_start, mmap_pointer_aligned, order_choice, reduce_offset, reduce_strided_faithful, reduce_contiguous_faithful, "
+    "total_buffer_len_covers (all stride vectors incl. negative and non-multiple strides, after the F24-F26 repairs) over the "
+    "ArrayFormat model of NumpyArrayWrapper and _reduce_memmap_backed; pre-fix witnesses kept; under python3-vt (numpy) arrays from a "
+    "dtype x shape x layout generator are dumped by the real code, the file layout is parsed and compared with the model, loaded and "
+    "memory-mapped arrays and arrays seen by loky/multiprocessing workers are compared bit for bit.",
+    note="numpy semantics (nditer order, tobytes, frombuffer, memmap, as_strided) are parameters of the model; runs on CPython 3.11 + "
+    "numpy 2.4.6, not the pinned 3.12 (no numpy there); dtype identical up to byte order when ensure_native_byte_order is in effect; "
+    "F16 (np.matrix under numpy 2) and F27 (itemsize-0 dtypes) are known findings.",
+    technique="Lean 4 proof (layout/alignment/stride arithmetic) + file-layout and worker-view differential correspondence under numpy",
+    ref="6/C19",
+)
+
 NOT_BUILT = "check not built yet in this round (planned: see DESIGN.md section 6); not claimed"
 NOT_APPLICABLE = {}
 
